@@ -28,7 +28,7 @@ ANCHORS = ["AND._evaluate__", "Union._evaluate__", "ElseIf._evaluate__", "Not._e
            "QueryObjectDescriptor.evaluate_selected_variables", "QueryObjectDescriptor.get_constrained_values"]
 
 FAMILIES = [("core", 30), ("rich", 25), ("flat", 8), ("sub", 6), ("E1", 6), ("E2", 5), ("forall", 6),
-            ("forall0", 1), ("msb", 6), ("msu", 2), ("core_ne", 5), ("fnfalsy", 1), ("forallz", 1), ("E2z", 1), ("porder", 4)]
+            ("forall0", 1), ("msb", 6), ("msu", 2), ("core_ne", 5), ("fnfalsy", 1), ("forallz", 1), ("E2z", 1), ("porder", 4), ("scalar", 2), ("scalar0", 3)]
 
 
 def plan(tier):
@@ -67,6 +67,10 @@ def gen_family(rng, fam):
         return GEN.gen_forall(rng, True)
     if fam == "porder":
         return GEN.gen_partial_order(rng)
+    if fam == "scalar":
+        return GEN.gen_scalar_vars(rng, falsy=False)
+    if fam == "scalar0":
+        return GEN.gen_scalar_vars(rng, falsy=True)
     if fam == "fnfalsy":
         return GEN.gen_fnfalsy(rng)
     if fam == "forallz":
@@ -269,8 +273,6 @@ def classify(spec, m, objs, got, exp, err):
             kle = None
         if kle is not None and kle != se and sg <= kle:
             return "short-circuit-empty-domain"
-    if _falsy_operand(spec):
-        return "falsy-operand-dropped"
     if (f["union_under_not"] or f["union"] and (f["forall"] or f["exists"])) and extra:
         return "neg-over-union"
     if qi["exists_free"] and missing and not extra:
@@ -280,6 +282,8 @@ def classify(spec, m, objs, got, exp, err):
     for d in spec.get("derived", []):
         if d["kind"] == "sub" and d.get("cond") and d["cond"][0] == "truth" and extra and not missing:
             return "subquery-bare-truth-condition"
+    if _falsy_operand(spec):
+        return "falsy-operand-dropped"      # fixed in the repository: not listed as known, so this is a VIOLATION again
     return None
 
 
